@@ -191,6 +191,19 @@ func runGroup(cfg *hx.RunCfg) error {
 		type member struct{ name, d string }
 		var live []member
 		for i := 0; i < 6+g.Intn(14); i++ {
+			if g.Chance(0.1) {
+				// the only member leaves and a proxy of the same name joins again, traffic before and after
+				d := g.Pick(doms)
+				nm := g.Pick(names)
+				host := "h.test"
+				h = append(h, gOp{kind: "join", name: nm, grp: "g-" + d, d: d, owner: int64(1 + g.Intn(nOwners))},
+					gOp{kind: "get", host: host, path: "/"},
+					gOp{kind: "leave", name: nm, grp: "g-" + d, d: d},
+					gOp{kind: "join", name: nm, grp: "g-" + d, d: d, owner: int64(1 + g.Intn(nOwners))},
+					gOp{kind: "get", host: host, path: "/"})
+				live = append(live, member{nm, d})
+				continue
+			}
 			switch x := g.Intn(100); {
 			case x < 25:
 				m := member{g.Pick(names), g.Pick(doms)}
